@@ -1,6 +1,8 @@
 package main
 
 import (
+	"strings"
+
 	"github.com/juev/hledger-lsp/internal/parser"
 )
 
@@ -19,12 +21,43 @@ func c03Case(text string, truth any) map[string]any {
 }
 
 func genC03(c *Ctx) {
+	var sess *c03Session
+	defer func() {
+		if sess != nil {
+			sess.close()
+		}
+	}()
 	for i := 0; i < c.N(3000, 150000); i++ {
 		o := GOpts{MaxEntries: c.N(6, 20)}
+		if i%4 == 3 {
+			// what the client is sent: no non-BMP characters here (columns of the tree count
+			// runes, the published ones UTF-16 units: finding utf16-columns of C08)
+			o.Deny = map[string]bool{"nonbmp": true}
+		}
 		g := genJournal(c.R, o)
 		for k := range g.Feat {
 			c.Count(k)
 		}
+		if i%4 == 3 && !strings.ContainsAny(g.Text, "\U0001F600\U0001D11E") && !hasNonBMP(g.Text) {
+			if sess == nil || sess.sent >= 25 {
+				if sess != nil {
+					sess.close()
+				}
+				sess = newC03Session(c)
+			}
+			c.Count("via.server")
+			c.Emit("c03.journal", c03PublishedCase(sess, g))
+			continue
+		}
 		c.Emit("c03.journal", c03Case(g.Text, gJournalJ(g)))
 	}
+}
+
+func hasNonBMP(s string) bool {
+	for _, r := range s {
+		if r >= 0x10000 {
+			return true
+		}
+	}
+	return false
 }
